@@ -168,6 +168,12 @@ func ssaOriginsX(v ssa.Value, stop func(*ssa.Function) bool, ip *core.Program) [
 			scan(x)
 			_ = n
 		case *ssa.Call:
+			if bi, ok := x.Common().Value.(*ssa.Builtin); ok && bi.Name() == "append" {
+				for _, a := range x.Common().Args {
+					rec(a, idx, depth)
+				}
+				return
+			}
 			callee := x.Common().StaticCallee()
 			if callee == nil && x.Common().IsInvoke() {
 				// a single-assignment interface variable (dependency-injection seam)
